@@ -238,7 +238,7 @@ def run(c):
                           'deviation DanglingOnBudget', what='WatchClosed')
     # real code, default budget
     base = [G.random_instance(rng, max_nodes=8, kinds=('int', 'str', 'list', 'tuple', 'dict', 'obj', 'exc'))
-            for _ in range(400 if quick else 8000)]
+            for _ in range(400 if quick else 30000)]
     insts = [with_watches(rng, i, None) for i in base]
     for i in insts:
         i['maxVars'] = rng.choice([1, 2, 3, 5, 1000])
@@ -247,14 +247,14 @@ def run(c):
     # real code, watch budget of 3 variables: watches evaluated after the budget is used up
     with watch_budget(3):
         insts2 = [with_watches(rng, G.random_instance(rng, max_nodes=8, kinds=('int', 'list', 'dict', 'obj')), None)
-                  for _ in range(300 if quick else 5000)]
+                  for _ in range(300 if quick else 20000)]
         for i in insts2:
             i['maxVars'] = rng.choice([2, 3, 5, 8])
         traces, meta, sk = run_instances_budget(c, insts2, wd, 'watches-small-budget', 3)
     c05.validate(c, traces, meta)
     # objects held by several frames of the stack (frame_type all_frame): recorded once, referred to from every frame
     fr = []
-    for _ in range(100 if quick else 3000):
+    for _ in range(100 if quick else 10000):
         inst = G.random_instance(rng, max_nodes=5, kinds=('int', 'str', 'list', 'dict', 'obj'))
         inst['maxVars'] = rng.choice([3, 5, 1000])
         n = len(inst['kind'])
